@@ -669,8 +669,26 @@ fn stress(rep: &mut Report, threads: usize, ops: usize, contents: usize, seed: u
                 };
                 for round in 0..rounds {
                     for _ in 0..per_round {
-                        match rng.below(4) {
-                            0 | 1 => {
+                        match rng.below(5) {
+                            4 if held.len() >= 2 => {
+                                // a handle is overwritten in place (Clone::clone_from, which containers forward to their
+                                // elements): the old contents are released exactly as if the handle had been dropped
+                                let i = rng.below(held.len());
+                                let j = rng.below(held.len());
+                                if i != j {
+                                    let (cj, hj) = (held[j].0, held[j].1.clone());
+                                    let (ci, old) = (held[i].0, held[i].1.data().as_ptr() as usize);
+                                    let _ = old;
+                                    unreg(ci, &held[i].1);
+                                    held[i].1.clone_from(&hj);
+                                    held[i].0 = cj;
+                                    reg(cj, &held[i].1, &errors);
+                                    if held[i].1 != hj || held[i].1.data() != hj.data() {
+                                        errors.lock().unwrap().push("data-mismatch: clone_from".into());
+                                    }
+                                }
+                            }
+                            0 | 1 | 4 => {
                                 let c = rng.below(contents);
                                 let bytes = content_bytes(tag, c as u8);
                                 let h = SharedString::new(bytes.clone());
@@ -736,6 +754,35 @@ fn stress(rep: &mut Report, threads: usize, ops: usize, contents: usize, seed: u
                     }
                     drop(h);
                     drop(h2);
+                    if k % 4 == 0 {
+                        // the other ways a handle ends: overwritten in place by clone_from (directly and through Vec / Option,
+                        // which forward to their elements), by assignment, by mem::replace, taken out of an Option
+                        let uniq = |n: u8| {
+                            let mut b = content_bytes(tag, 250 - n);
+                            b.extend_from_slice(&(t as u32).to_le_bytes());
+                            b.extend_from_slice(&(k as u64).to_le_bytes());
+                            b
+                        };
+                        let src = SharedString::new(uniq(0));
+                        let mut a = SharedString::new(uniq(1));
+                        a.clone_from(&src);
+                        let mut v = vec![SharedString::new(uniq(2)), SharedString::new(uniq(3))];
+                        let w = vec![src.clone(), src.clone(), src.clone()];
+                        v.clone_from(&w);
+                        let mut o = Some(SharedString::new(uniq(4)));
+                        o.clone_from(&Some(src.clone()));
+                        let mut e = SharedString::new(uniq(5));
+                        e = src.clone();
+                        let mut f = SharedString::new(uniq(6));
+                        let old = std::mem::replace(&mut f, src.clone());
+                        drop(old);
+                        let mut g = Some(SharedString::new(uniq(7)));
+                        let taken = g.take();
+                        drop(taken);
+                        if a.data() != src.data() || v.iter().any(|x| x.data() != src.data()) || o.as_ref().map(|x| x.data()) != Some(src.data()) || e != src || f != src {
+                            errors.lock().unwrap().push("data-mismatch: overwritten handle".into());
+                        }
+                    }
                 }
                 // sliding-alphabet phase: all threads create / clone / drop the SAME content at about the same time, and
                 // the content changes every few operations and never comes back. Races between one thread's clean-up
